@@ -435,13 +435,26 @@ func DecodeUnverifiedBaseResponse(encodedResponse string) (*types.UnverifiedBase
 
 	err = maybeDeflate(raw, defaultMaxDecompressedResponseSize, func(maybeXML []byte) error {
 		response = &types.UnverifiedBaseResponse{}
-		return xmlUnmarshalIgnoringCharset(maybeXML, response)
+		return xmlUnmarshalDocument(maybeXML, response)
 	})
 	if err != nil {
 		return nil, err
 	}
 
 	return response, nil
+}
+
+// xmlUnmarshalDocument decodes data only if all of it parses as an XML
+// document. Full validation reads a message as received under exactly that
+// condition and otherwise inflates it first; xml.Unmarshal alone stops at the
+// end of the root element and skips text in front of it, so it would also
+// "succeed" on a DEFLATE stream that merely contains a readable root element,
+// and report that reading instead of the inflated message validation accepts.
+func xmlUnmarshalDocument(data []byte, v interface{}) error {
+	if err := etree.NewDocument().ReadFromBytes(data); err != nil {
+		return err
+	}
+	return xmlUnmarshalIgnoringCharset(data, v)
 }
 
 // xmlUnmarshalIgnoringCharset is xml.Unmarshal with a pass-through charset
@@ -528,7 +541,7 @@ func DecodeUnverifiedLogoutResponse(encodedResponse string) (*types.LogoutRespon
 
 	err = maybeDeflate(raw, defaultMaxDecompressedResponseSize, func(maybeXML []byte) error {
 		response = &types.LogoutResponse{}
-		return xmlUnmarshalIgnoringCharset(maybeXML, response)
+		return xmlUnmarshalDocument(maybeXML, response)
 	})
 	if err != nil {
 		return nil, err
